@@ -659,6 +659,10 @@ class RemoteWorker(Worker, metaclass=RemoteWorkerMeta):
                 self._ctrl_thread_loc.join()
         finally:
             self._cleanup()
+            if result is None:
+                # ended by something the handlers above do not catch (a BaseException raised by the target):
+                # nothing could be recorded - say so, the parent must not be left without an outcome
+                result = (False, None)
             logger.debug('Sending result')
             send_msg(self._socket, result, 'data: result')
             send_msg(self._socket, self._user_state, 'data: user state')
